@@ -4,6 +4,7 @@
   the dissector model's decoders.
 -/
 import KsVerif.Amqp.Dissect
+import KsVerif.Amqp.SpecTable
 
 namespace KsVerif.Amqp.Spec
 open KsVerif KsVerif.Amqp
@@ -93,7 +94,8 @@ def argNames (fields : List (String × Kind)) : List String :=
     | _ => [n]
 
 def namedArgs (c m : Nat) (args : List Arg) : Option (String × List (String × AVal)) :=
-  match lookupMethod c m with
+  -- the specified layout of the method, not the dissector's
+  match (SpecTable.methods.find? fun e => e.1 = c ∧ e.2.1 = m).map fun e => (e.2.2.1, e.2.2.2) with
   | none => none
   | some (typ, fields) =>
     let vals := args.flatMap argToAVal
@@ -105,7 +107,7 @@ def reportedTypes : List String :=
 
 /-- content properties by name, from the flags and the values in wire order -/
 def namedProps (flags : Nat) (props : List Arg) : List (String × AVal) :=
-  let present := Gen.Amqp.properties.filter fun (flag, _, _) => (flags / flag) % 2 = 1
+  let present := SpecTable.properties.filter fun (flag, _, _) => (flags / flag) % 2 = 1
   (present.map (·.2.1)).zip (props.flatMap argToAVal)
 
 /-- per-channel content under assembly -/
